@@ -23,9 +23,9 @@ CLAIMED.update({
              note="The branch condition enters as a threshold table from harness/consts.py; rho_max >= 0.84 as the property states.", ref="5/C10"),
 })
 CLAIMED.update({
- "C04": dict(technique="TLA+ spec TreeBandit.tla (+GPO/POO) model-checked with TLC with a history variable + TLC trace validation of per-round evidence diffs of the real classes",
+ "C04": dict(technique="TLA+ specs TreeBandit / SOOFamily / SequOOL / Zooming / POO / StroquOOL (MC_Stro) model-checked with TLC with a history variable + literal replay of enumerated behaviours + TLC trace validation of per-round evidence diffs of the real classes",
              text="TLC explores every reward sequence and tie-break of small T-HOO/HCT/VHCT models with 'evidence of every cell = fold of the history' and 'counts sum to the rounds' as invariants; conformance validates, after every round of real runs, that exactly the credited cells change by (+1, +r, +r^2), reward-list lengths, means and VHCT variances match the exact statistics, and (wrappers) each reward reaches the serving learner or the validation score only.",
-             note="Covers all algorithms; StroquOOL's opening schedule is left unspecified (any cell may be handed out), its credit, the single sanctioned restart of the candidates' reward lists and the end of crediting are specified.  Grid rewards so that sums are exact.", ref="5/C04"),
+             note="Covers all algorithms; StroquOOL: MC_Stro model-checks the schedule as implemented with 'evidence = fold of the history, one sanctioned restart' and its behaviours are replayed literally; in trace validation the schedule is a secondary clause (no listed property speaks about it), credit, the restart and the end of crediting are verdicts.  Grid rewards so that sums are exact.  The index clauses of C05 are soft, so a wrong index does not hide a credit or expansion fault later in the run.", ref="5/C04"),
  "C05": dict(technique="TLA+ spec TreeBandit.tla (fixed-point index, B-law, optimistic descent) model-checked with TLC + TLC trace validation on observed U/B codes with the published formulas recomputed in TLA+ to 5 units of 2^-13",
              text="Design level: exhaustive TLC runs over reward sequences and tie-breaks with B-law / stop-rule invariants and coverage of the 'threshold grew past a split cell' branch.  Code level: every pull of real runs must return the representative of a cell in PullEnds computed from the observed B-values; after every round the U of each touched cell must equal the TLA+ fixed-point evaluation of the published index (constants from 60-digit tables), untouched cells keep their value, and B = min(U, max children B) holds on every cell including the root.",
              note="Formula accuracy limited to Tol (about 6e-4; VHCT width +6%); VHCT's per-cell threshold is used as observed (its formula is model-level only).  Constant tables trusted (harness/consts.py).", ref="5/C05"),
@@ -34,14 +34,14 @@ CLAIMED.update({
              note="Thresholds from the 60-digit tables; VHCT per-cell thresholds as observed.", ref="5/C06"),
 })
 CLAIMED.update({
- "C07": dict(technique="TLA+ specs SOOFamily / SequOOL / GPO / POO (recommendation sets) model-checked with TLC + TLC trace validation of get_last_point against the specification's ledger of evaluated cells",
+ "C07": dict(technique="TLA+ specs SOOFamily / SequOOL / StroquOOL / GPO / POO (recommendation sets) model-checked with TLC + TLC trace validation of get_last_point against the specification's ledger of evaluated cells",
              text="The specifications define the admissible recommendations (best evaluated cell; deepest-level cell of maximal exact mean; best validated point; best-scoring learner) over their own state, in which evaluation is recorded independently of the library's reward fields; TLC validates every get_last_point of real runs - issued after the loop and at intermediate rounds, on all-negative, all-equal and tied grid histories - against those sets, and model-checks that they are well defined on all reachable states of the small models.",
              note="Grid rewards; comparisons exact (integers / cross-multiplied rationals).", ref="5/C07"),
  "C08": dict(technique="TLA+ spec SOOFamily.tla (sweep as micro-steps with cursor <<h, vmax>>) model-checked with TLC + replay of all enumerated behaviours + TLC trace validation of every expansion / hand-out of real SOO, StoSOO, DOO runs",
              text="TLC explores the micro-step model (begin / expand / hand out / receive) for K in {2,3}, depth caps and k, all reward sequences incl. ties and negatives, with evaluation caps, expand-only-evaluated, depth cap, no-stuck and the expansion rule as (action) invariants; the implementation is run on every enumerated reward sequence and must literally produce one of the enumerated behaviours; Trace_SOO validates each make_children and each handed-out cell of larger real runs against Point() at the sweep cursor, StoSOO's b formula to 5 units of 2^-13 and DOO's b - reward as a function of depth.",
-             note="Note: PyXAB's SOO restarts its sweep at every pull, so the per-sweep threshold vmax never binds there; the spec states the rule and it holds vacuously.  DOO's default delta is only checked to be one function of the depth.", ref="5/C08"),
+             note="Note: PyXAB's SOO restarts its sweep at every pull, so the per-sweep threshold vmax never binds there; the spec states the rule and it holds vacuously.  DOO's default delta must equal the largest squared half-width of the cells currently at that depth (2^-21 relative slack when rewards are float32).  Integer-typed rewards, reached depth caps.", ref="5/C08"),
  "C12": dict(technique="TLA+ spec SequOOL.tla model-checked with TLC (budgets, order, exhaustion) + literal replay of enumerated behaviours + TLC trace validation of real runs",
-             text="Purely order-based, hence exact: TLC explores all reward sequences and tie-breaks for hmax in 1..4 with the per-depth budgets, open-best, child-order and frozen-recommendation properties; implementation runs for every enumerated reward sequence must literally be enumerated behaviours; Trace_Seq validates each opening and each handed-out child of runs with n up to 1000 on all partitions.",
+             text="Purely order-based, hence exact: TLC explores all reward sequences and tie-breaks for hmax in 1..4 with the per-depth budgets, open-best, child-order and frozen-recommendation properties; implementation runs for every enumerated reward sequence must literally be enumerated behaviours; Trace_Seq validates each opening and each handed-out child of runs with n up to 1000 on all partitions, plus runs with 8 children per cell and n = 5000 on a 2^-16 reward grid (layers far wider than their budget).",
              note="hmax = floor(n/H_n) computed with exact rationals.", ref="5/C12"),
 })
 CLAIMED.update({
